@@ -32,6 +32,8 @@ func stepSite(kind, path string) string {
 	switch {
 	case base == "index.gob":
 		what = "index"
+	case strings.HasPrefix(base, "index.gob"):
+		what = "index-tmp"
 	case strings.HasSuffix(base, ".raw"):
 		what = "raw"
 	}
@@ -53,6 +55,23 @@ func init() {
 			h.Names = pickNames(w, 1+w.Choose(3), false)
 			n := 5 + w.Choose(21)
 			h.Ops = genSOps(w, h.Names, n, 9000, c11Kinds, map[string]bool{"missing-id": true})
+			if w.Choose(3) == 0 {
+				// a second client on its own mailboxes, preferably in the same hash directories,
+				// so that crashes also land while two mailboxes are mid-update
+				all := pickNames(w, len(h.Names)+1+w.Choose(2), false)
+				for _, nm := range all {
+					dup := false
+					for _, x := range h.Names {
+						dup = dup || x == nm
+					}
+					if !dup {
+						h.Names2 = append(h.Names2, nm)
+					}
+				}
+				if len(h.Names2) > 0 {
+					h.Ops2 = genSOps(w, h.Names2, 3+w.Choose(10), 5000, c11Kinds, map[string]bool{"missing-id": true})
+				}
+			}
 			return h
 		},
 		Config:            func(cs Case) simrt.Config { return simrt.Config{NoJumps: true} },
@@ -71,104 +90,189 @@ func init() {
 		Stub: []string{"disk (simfs) with crash images: process-death model, no lost or reordered completed calls"},
 		Assumptions: []string{
 			"crash = process death: every completed system call persists (Inbucket never calls fsync; power loss is out of scope, DESIGN §9)",
-			"one client at a time (crashes while two mailboxes are mid-update are covered by C09-style schedules only in the thorough tier)",
+			"in a third of the runs a second client updates its own mailboxes (preferably in the same hash directories) concurrently, so crash images also show two operations in flight; each mailbox is updated by one client only",
 		},
 	})
 }
 
+// c11Client is one sequence of operations on its own mailboxes.
+type c11Client struct {
+	name     string
+	rig      *storeRig
+	names    []string
+	ops      []SOp
+	befores  []*models.MailStore // model before op i
+	afters   []*models.MailStore // model after op i
+	cur      int                 // op in flight, or number of completed ops
+	inflight bool
+}
+
+// stateAt returns the client's model when `done` operations had completed.
+func (cl *c11Client) stateAt(done int) *models.MailStore {
+	if done < len(cl.befores) {
+		return cl.befores[done]
+	}
+	return cl.rig.model
+}
+
+type c11Point struct {
+	fs      *simfs.FS
+	by      int // client whose file-system step this is
+	step    string
+	path    string
+	partial int
+	cur     []int
+	infl    []bool
+}
+
 func runC11(c *Ctx, cs Case) {
 	h := cs.(*storeHistory)
-	r := newStoreRig(c, h.Cfgs[0])
-	live := simfs.Installed(c.Sim)
-	type opRec struct {
-		before, after *models.MailStore
-		op            SOp
+	first := newStoreRig(c, h.Cfgs[0])
+	clients := []*c11Client{{name: "client0", rig: first, names: h.Names, ops: h.Ops}}
+	if len(h.Ops2) > 0 {
+		r2 := &storeRig{c: c, cfg: first.cfg, store: first.store, eh: first.eh, ids: map[string][]string{}, tag: first.tag,
+			model: models.NewMailStore(first.cfg.Cap, 0)}
+		clients = append(clients, &c11Client{name: "client1", rig: r2, names: h.Names2, ops: h.Ops2})
 	}
-	var recs []opRec
-	var points []crashPoint
-	curOp := -1
+	live := simfs.Installed(c.Sim)
+	var points []c11Point
+	armed := false
 	live.BeforeStep = func(f *simfs.FS, st simfs.Step) {
-		if curOp < 0 {
+		if !armed {
 			return
 		}
-		points = append(points, crashPoint{fs: f.Snapshot(), op: curOp, step: st.Kind, path: st.Path, partial: -1})
+		by := -1
+		if t := simrt.Current(); t != nil {
+			for i, cl := range clients {
+				if cl.name == t.Name {
+					by = i
+				}
+			}
+		}
+		if by < 0 || !clients[by].inflight {
+			return
+		}
+		mk := func(fsys *simfs.FS, partial int) {
+			p := c11Point{fs: fsys, by: by, step: st.Kind, path: st.Path, partial: partial}
+			for _, cl := range clients {
+				p.cur = append(p.cur, cl.cur)
+				p.infl = append(p.infl, cl.inflight)
+			}
+			points = append(points, p)
+		}
+		mk(f.Snapshot(), -1)
 		if strings.HasPrefix(st.Kind, "write@") && len(st.Data) > 1 {
 			var off int64
 			fmt.Sscanf(st.Kind, "write@%d", &off)
 			for _, n := range uniqInts(1, len(st.Data)/2, len(st.Data)-1) {
 				sn := f.Snapshot()
 				sn.AppendRaw(st.Path, off, st.Data[:n])
-				points = append(points, crashPoint{fs: sn, op: curOp, step: st.Kind, path: st.Path, partial: n})
+				mk(sn, n)
 			}
 		}
 	}
-	for i, o := range h.Ops {
-		before := r.model.Clone()
-		curOp = i
-		r.apply(i, o)
-		curOp = -1
-		if c.Failed() {
-			return
-		}
-		recs = append(recs, opRec{before: before, after: r.model.Clone(), op: o})
+	armed = true
+	var tasks []*simrt.Task
+	for _, cl := range clients {
+		cl := cl
+		tasks = append(tasks, simrt.Go(cl.name, func() {
+			for i, o := range cl.ops {
+				cl.befores = append(cl.befores, cl.rig.model.Clone())
+				cl.cur, cl.inflight = i, true
+				cl.rig.apply(i, o)
+				cl.inflight = false
+				cl.cur = i + 1
+				cl.afters = append(cl.afters, cl.rig.model.Clone())
+				if c.Failed() {
+					return
+				}
+			}
+		}))
 	}
+	for _, t := range tasks {
+		c.Main.Join(t)
+	}
+	armed = false
 	live.BeforeStep = nil
+	if c.Failed() {
+		return
+	}
 	c.Stat("probe.crash_points", int64(len(points)))
+	both := 0
 	// verify every crash image
 	for pi, p := range points {
-		rec := recs[p.op]
+		stepper := clients[p.by]
+		op := stepper.ops[p.cur[p.by]]
 		site := stepSite(p.step, p.path)
 		c.Stat("fault.crash@"+site, 1)
 		if p.partial >= 0 {
 			c.Stat("fault.crash_partial_write", 1)
 		}
+		nInfl := 0
+		for _, b := range p.infl {
+			if b {
+				nInfl++
+			}
+		}
+		if nInfl > 1 {
+			both++
+		}
 		simfs.Install(c.Sim, p.fs)
-		st, err := openStore(r.cfg, extension.NewHost())
+		st, err := openStore(first.cfg, extension.NewHost())
+		desc := fmt.Sprintf("crash point %d (%s during op %d %s, at step %s %s, partial=%d, %d operations in flight)", pi, stepper.name, p.cur[p.by], op, p.step, p.path, p.partial, nInfl)
 		if err != nil {
-			c.Failf("file/crash@"+site+":reopen-error", "crash point %d (op %d %s, before step %s %s, partial=%d): file.New: %v", pi, p.op, rec.op, p.step, p.path, p.partial, err)
+			c.Failf("file/crash@"+site+":reopen-error", "%s: file.New: %v", desc, err)
 			return
 		}
-		desc := fmt.Sprintf("crash point %d (during op %d %s, at step %s %s, partial=%d)", pi, p.op, rec.op, p.step, p.path, p.partial)
 		if err := st.VisitMailboxes(func(ms []storage.Message) bool { return true }); err != nil {
 			c.Failf("file/crash@"+site+":VisitMailboxes-error", "%s: %v", desc, err)
 			return
 		}
-		for _, name := range h.Names {
-			got, err := st.GetMessages(name)
-			if err != nil {
-				c.Failf("file/crash@"+site+":GetMessages-error", "%s: mailbox %q: %v", desc, name, err)
-				return
+		for ci, cl := range clients {
+			before := cl.stateAt(p.cur[ci])
+			var after *models.MailStore
+			touched := ""
+			if p.infl[ci] {
+				after = cl.afters[p.cur[ci]]
+				touched = cl.ops[p.cur[ci]].Mailbox
 			}
-			if name != rec.op.Mailbox {
-				if d := cmpList(got, rec.before.List(name), true); d != "" {
-					c.Failf("file/crash@"+site+":other-mailbox-changed", "%s: untouched mailbox %q: %s", desc, name, d)
+			for _, name := range cl.names {
+				got, err := st.GetMessages(name)
+				if err != nil {
+					c.Failf("file/crash@"+site+":GetMessages-error", "%s: mailbox %q: %v", desc, name, err)
 					return
 				}
-				continue
-			}
-			dB := cmpList(got, rec.before.List(name), true)
-			dA := cmpList(got, rec.after.List(name), true)
-			if dB != "" && dA != "" {
-				c.Failf("file/crash@"+site+":neither-before-nor-after("+rec.op.Kind+capTag(r.cfg)+")",
-					"%s: mailbox %q is neither the state before the operation (%s) nor after it (%s)", desc, name, dB, dA)
-				return
+				dB := cmpList(got, before.List(name), true)
+				if name != touched {
+					if dB != "" {
+						c.Failf("file/crash@"+site+":other-mailbox-changed", "%s: mailbox %q, not touched by an operation in flight: %s", desc, name, dB)
+						return
+					}
+					continue
+				}
+				if dA := cmpList(got, after.List(name), true); dB != "" && dA != "" {
+					c.Failf("file/crash@"+site+":neither-before-nor-after("+cl.ops[p.cur[ci]].Kind+capTag(first.cfg)+")",
+						"%s: mailbox %q is neither the state before the operation (%s) nor after it (%s)", desc, name, dB, dA)
+					return
+				}
 			}
 		}
 		// the affected mailbox accepts new mail
-		m := &models.Msg{Mailbox: rec.op.Mailbox, Subject: "after crash", From: people[0], Date: baseDate, Body: []byte("post-crash delivery\r\n")}
+		m := &models.Msg{Mailbox: op.Mailbox, Subject: "after crash", From: people[0], Date: baseDate, Body: []byte("post-crash delivery\r\n")}
 		id, err := st.AddMessage(delivery(m))
 		if err != nil {
 			c.Failf("file/crash@"+site+":delivery-after-crash-error", "%s: AddMessage: %v", desc, err)
 			return
 		}
-		got, err := st.GetMessages(rec.op.Mailbox)
+		got, err := st.GetMessages(op.Mailbox)
 		if err != nil || len(got) == 0 || got[len(got)-1].ID() != id {
 			c.Failf("file/crash@"+site+":delivery-after-crash-not-listed", "%s: new message %q not listed last: %v err=%v", desc, id, idsOf(got), err)
 			return
 		}
-		c.Distinct("crash_states", rec.op.Kind, site, p.partial >= 0, rec.before.Hash())
-		c.NonTrivial(rec.op.Kind, site, p.partial >= 0, rec.before.Hash())
+		c.Distinct("crash_states", op.Kind, site, p.partial >= 0, nInfl, stepper.stateAt(p.cur[p.by]).Hash())
+		c.NonTrivial(op.Kind, site, p.partial >= 0, nInfl, stepper.stateAt(p.cur[p.by]).Hash())
 	}
+	c.Stat("probe.crash_points_with_two_operations_in_flight", int64(both))
 	simfs.Install(c.Sim, live)
 }
 
